@@ -397,16 +397,23 @@ async fn run_case(case: &Case, srv: Srv, out: &mut Out) {
                     let window: Vec<Cmd> = g.conns[id].log[at..].iter().filter(|c| c.name != "WHOAMI").cloned().collect();
                     let watch_now = g.conns[id].watch.clone();
                     // all PING arguments ever seen on this pool before the one in the window
-                    let names: Vec<&str> = window.iter().map(|c| c.name.as_str()).collect();
-                    if names != ["UNWATCH", "PING"] {
+                    // the statement asks for an UNWATCH and an echoed PING with a fresh value before
+                    // the reuse; it does not order the two and does not forbid further commands
+                    let unwatched = window.iter().any(|c| c.name == "UNWATCH");
+                    let pings: Vec<&Cmd> = window.iter().filter(|c| c.name == "PING" && !c.args.is_empty()).collect();
+                    if !unwatched || pings.is_empty() {
                         drop(g);
                         fail!(
                             "recycle-commands-wrong",
-                            "before connection {} was reused the server received {:?}, expected UNWATCH then PING <fresh value>",
+                            "before connection {} was reused the server received {:?}, expected an UNWATCH and a PING <fresh value>",
                             id, window
                         );
                     }
-                    let ping = &window[1];
+                    if window.len() > 2 || window[0].name != "UNWATCH" {
+                        out.labels.push("recycle:other-command-shape".into());
+                    }
+                    // every PING of the window was answered; the last one decides
+                    let ping = *pings.last().unwrap();
                     let v = ping.args.first().cloned().unwrap_or_default();
                     if ping.args.len() != 1 {
                         drop(g);
